@@ -68,7 +68,7 @@ func runC06(c *ctx) error {
 		n = 15000
 	}
 	for i := 0; i < n; i++ {
-		p, src := genParsedPipelineBias(rng, c.res.Hist, 4, 30)
+		p, src := c.corpusOrGenerated(i, 2, rng, 4, 30)
 		if p == nil {
 			continue
 		}
